@@ -102,6 +102,9 @@ class CoroDriver:
         ctx = Ctx()
         ctx.driver = self
         ctx.hits = collections.Counter()
+        if not getattr(type(self), '_probed', False):
+            type(self)._probed = True     # once per process is enough
+            self._isolation_probe()
         ctx.proc = desper.CoroutineProcessor()
         ctx.cos = []
         ctx.frame = None
@@ -112,6 +115,39 @@ class CoroDriver:
             for script in self.scripts:
                 self._new(ctx, script)
         return ctx
+
+    @staticmethod
+    def _isolation_probe():
+        """A fresh processor inherits nothing from another, busy, one."""
+        ran = []
+
+        def body(tag, wait):
+            ran.append(tag)
+            yield wait
+            ran.append(tag)
+
+        used = desper.CoroutineProcessor()
+        g1, g2 = body('runnable', None), body('sleeper', 5)
+        used.start(g1)
+        used.start(g2)
+        used.process(1)
+        used.kill(g1)
+        del ran[:]
+        fresh = desper.CoroutineProcessor()
+        problems = []
+        for g in (g1, g2):
+            if fresh.state(g) != CoroutineState.TERMINATED:
+                problems.append(f'state {fresh.state(g)!r} for a coroutine '
+                                f'of another processor')
+        try:
+            fresh.process(10)
+        except Exception as exc:
+            problems.append(f'process raised {exc!r}')
+        if ran:
+            problems.append(f'advanced {ran}')
+        if problems:
+            raise Violation('fresh_processor_is_independent',
+                            '; '.join(problems), isolation=True)
 
     def _new(self, ctx, script):
         co = Co(len(ctx.cos), script)
